@@ -164,7 +164,7 @@ def print_assumptions(props_file):
     elif line.startswith("Axioms:"):
       cur = []
       blocks.append(cur)
-    elif cur is not None and re.match(r"^[A-Za-z_][A-Za-z0-9_.']*(\s*:|\s*$)", line):
+    elif cur is not None and re.match(r"^[A-Za-z_][A-Za-z0-9_.']*(\s*:|\s*$)", line) and not line.startswith(("Warning", "File ", "COQC", "COQDEP")):
       cur.append(line.split(":")[0].strip())
   for n, b in zip(names, blocks):
     res[n] = b
